@@ -29,6 +29,7 @@ type JS struct {
 	Props    []JProp
 	Addl     *JS
 	Ref      string
+	Fmt      string // an integer format other than int32/int64 (the Go type stays int)
 	Members  []*JS
 	Disc     string
 	Mapping  [][2]string // discriminator value -> component name
@@ -53,6 +54,9 @@ func (s *JS) toSpec() map[string]any {
 		m["type"] = "string"
 	case "int":
 		m["type"] = "integer"
+		if s.Fmt != "" {
+			m["format"] = s.Fmt
+		}
 	case "int32":
 		m["type"], m["format"] = "integer", "int32"
 	case "int64":
@@ -143,8 +147,17 @@ func (e *jsonEnv) resolve(s *JS) *JS {
 
 var propNames = []string{"alpha", "beta", "count", "id", "items", "kind", "name", "note", "size", "tag", "user_id", "x-val", "when"}
 
-func genPrim(rng *PRNG, feats jsonFeats) *JS {
+// pickPrim picks a leaf kind; a plain integer sometimes carries one of the small/unsigned formats
+func pickPrim(rng *PRNG) *JS {
 	s := &JS{Kind: Pick(rng, primKinds)}
+	if s.Kind == "int" && rng.Chance(1, 2) {
+		s.Fmt = Pick(rng, []string{"uint8", "int8", "int16", "uint16", "uint32", "uint64"})
+	}
+	return s
+}
+
+func genPrim(rng *PRNG, feats jsonFeats) *JS {
+	s := pickPrim(rng)
 	if feats.nullablePrim && rng.Chance(1, 5) {
 		s.Nullable = true
 	}
@@ -173,7 +186,7 @@ func genPropSchema(rng *PRNG, objRefs, arrRefs []string, depth int, feats jsonFe
 	case r < 9:
 		var items *JS
 		if rng.Bool() || len(objRefs) == 0 {
-			items = &JS{Kind: Pick(rng, primKinds)}
+			items = pickPrim(rng)
 		} else {
 			items = &JS{Kind: "ref", Ref: Pick(rng, objRefs)}
 		}
@@ -258,7 +271,8 @@ func genJSONEnv(rng *PRNG, feats jsonFeats) *jsonEnv {
 		n := fmt.Sprintf("Arr%c", 'A'+i)
 		var items *JS
 		if rng.Bool() {
-			items = &JS{Kind: Pick(rng, primKinds), Nullable: feats.nullablePrim && rng.Chance(1, 3)}
+			items = pickPrim(rng)
+			items.Nullable = feats.nullablePrim && rng.Chance(1, 3)
 		} else {
 			items = &JS{Kind: "ref", Ref: Pick(rng, objNames)}
 		}
